@@ -138,7 +138,12 @@ def _stmt_lines(shape: Shape, f: str, i: int, s: Dict[str, str], args: Dict[Tupl
     if k == "call":
         if s["g"] in shape.real.get("as_class", []):
             return ["    sv.append(%s().run())" % g]
-        return ["    sv.append(%s())" % g]
+        a_ = s["a"]
+        if a_ in ("none", "default"):
+            return ["    sv.append(%s())" % g]
+        lit_ = ARG_SRC[args.get((f, i + 1), 0)]
+        src_ = {"const": lit_, "kw": "x=" + lit_, "pass": "x", "runtime": "L.rt(%s, sv)" % lit_}[a_]
+        return ["    sv.append(%s(%s))" % (g, src_)]
     if k == "eval":
         return ["    sv.append(dds.eval(%s))" % g]
     if k == "ref":
@@ -148,6 +153,8 @@ def _stmt_lines(shape: Shape, f: str, i: int, s: Dict[str, str], args: Dict[Tupl
     ver = args.get((f, i + 1), 0)
     if a == "none" or a == "default":
         return ["    sv.append(dds.keep(%r, %s))" % (s["p"], g)]
+    if a == "pass":
+        return ["    sv.append(dds.keep(%r, %s, x))" % (s["p"], g)]
     lit = ARG_SRC[ver]
     if a == "const":
         return ["    sv.append(dds.keep(%r, %s, %s))" % (s["p"], g, lit)]
